@@ -306,7 +306,7 @@ def module(t, body, nvals):
                         ' pub fn partial_cmp(&self, _: &Self) -> u8 { 0 } pub fn hash(&self) -> u8 { 0 } pub fn fmt(&self) -> u8 { 0 } pub fn clone(&self) -> u8 { 0 }'
                         ' pub fn clone_from(&mut self, _: &Self) {} pub fn default() -> u8 { 0 } pub fn deref(&self) -> u8 { 0 } pub fn deref_mut(&mut self) -> u8 { 0 }'
                         ' pub fn into(self) -> u8 { 0 } }')
-    ty = ('pub mod ty {\n    #![deny(warnings)]\n    #![allow(dead_code, unused_imports, non_snake_case)]\n    use crate::support::{A, B, C, N, Nt, Fl, Off, Good, Bad, Half, g_clone, g_default, g_into, m_eq, m_eqv, m_cmp, m_pcmp, m_hash, m_fmt, m_clone, m_clone_c, m_into, m_same, Mk, g_eq, g_cmp, g_pcmp, g_hash, g_fmt};\n'
+    ty = ('pub mod ty {\n    #![deny(warnings)]\n    #![allow(dead_code, unused_imports, non_snake_case)]\n    use crate::support::{A, B, C, N, Nt, Nd, Fl, Off, Good, Bad, Half, g_clone, g_default, g_into, m_eq, m_eqv, m_cmp, m_pcmp, m_hash, m_fmt, m_clone, m_clone_c, m_into, m_same, Mk, g_eq, g_cmp, g_pcmp, g_hash, g_fmt};\n'
           '    use educe::Educe;\n%s%s%s\n}\npub use ty::T;' % (HOSTILE_ITEMS if HOSTILE[0] else '', type_decl(t), hostile_impl))
     return ('// %s\n#![allow(dead_code, unused_variables, unused_mut, unused_imports, non_shorthand_field_patterns, clippy::all)]\n'
             'use crate::support::*;\nuse core::cmp::Ordering;\n%s\n%s\n' % (t.id, ty, body))
@@ -597,9 +597,10 @@ class DebugSuite(Suite):
             elif c < 0.65:
                 tname = 'T'
                 tparams.append(pick(r, ['name = true', 'name(true)']))
-        def style_for(v, owner_params, default_named):
+        def style_for(v, owner_params, default_named, nameless=False):
             named = default_named
-            if not noparam and v.shape != 'unit' and r.random() < 0.35:
+            # a shape shown without any name takes the rarer code paths (debug_map / nameless tuple): flip styles more often there
+            if not noparam and v.shape != 'unit' and r.random() < (0.6 if nameless else 0.35):
                 named = not default_named
                 owner_params.append(pick(r, ['named_field = %s', 'named_field(%s)']) % ('true' if named else 'false'))
             return named
@@ -619,7 +620,8 @@ class DebugSuite(Suite):
                     elif c < 0.35:
                         vname = None
                         vparams.append(pick(r, ['name = false', 'name(false)', 'name = ""']))
-                named = style_for(v, vparams, v.shape == 'named')
+                named = style_for(v, vparams, v.shape == 'named', nameless=(vname is None and tname is None))
+            nameless = (t.kind == 'enum' and vname is None and tname is None) or (t.kind == 'struct' and tname is None)
             shown = []
             for i, f in enumerate(v.fields):
                 c = r.random()
@@ -635,7 +637,7 @@ class DebugSuite(Suite):
                     if c < 0.45 and not f.ft.native:
                         meth = True
                         ps.append(pick(r, ['method(%s)', 'method = %s', 'method = "%s"', 'method("%s")']) % sp_path(r, 'm_fmt'))
-                    if named and r.random() < 0.3:
+                    if named and r.random() < (0.6 if nameless else 0.3):
                         key = 'k%d' % i
                         ps.append(pick(r, ['name = k%d', 'name(k%d)', 'name = "k%d"', 'rename = k%d', 'rename("k%d")']) % i)
                     if not ps and r.random() < 0.2:
@@ -796,6 +798,9 @@ DEF_TYPES = [  # (rust type, [(attribute value text, expected expr)], plain defa
     ('A<3>', [('A(9)', 'A(9)')], 'A(43)'),
     ('i128', [('77', '77i128')], '0i128'),
     ('Option<u8>', [('Some(3)', 'Some(3u8)'), ('None', 'None')], 'None'),
+    # a type WITHOUT a Default impl: legal exactly where the field has an expression of its own
+    ('Nd', [('Nd(3)', 'Nd(3)'), ('Nd(4)', 'Nd(4)')], None),
+    ('Nd', [('Nd(5)', 'Nd(5)')], None),
 ]
 def sp_default_value(r, val):
     simple = re.match(r'^-?[\w.\'"]+$', val) is not None and not val.lstrip('-')[0].isalpha() or val in ('true', 'false')
@@ -833,7 +838,7 @@ class DefaultSuite(Suite):
         if r.random() < 0.12:
             # type-level expression: build an explicit value
             v = pick(r, t.variants)
-            texpr = build(t, v, [f.ft.dflt if f.ft.rust not in ('A<0>', 'A<3>') else 'A(1)' for f in v.fields])
+            texpr = build(t, v, [(f.ft.dflt or 'Nd(1)') if f.ft.rust not in ('A<0>', 'A<3>') else 'A(1)' for f in v.fields])
             expected = texpr
             tparams.append(pick(r, ['expression = %s', 'expression(%s)', 'expr = %s', 'expr(%s)']) % texpr)
         else:
@@ -842,10 +847,10 @@ class DefaultSuite(Suite):
                 dv.at['_metas'] = ['Default']
             ex = []
             for f in dv.fields:
-                if r.random() < 0.55:
+                if r.random() < 0.55 or f.ft.dflt is None:
                     val, exp = pick(r, f.ft.defs)
                     f.at['_metas'] = [sp_default_value(r, val)]
-                    if val.startswith('String::'):
+                    if val.startswith('String::') or val.startswith('Nd('):
                         xscope = False          # a call: opaque to the model's interpreter (user expressions are tokens)
                     ex.append(exp)
                 else:
@@ -861,6 +866,8 @@ class DefaultSuite(Suite):
                 # the derive site has an inherent `default` of its own: `new()` must still be the trait's value
                 wv = pick(r, t.variants)
                 wrong = build(t, wv, [(f.ft.defs[-1][1] if f.ft.defs else f.ft.dflt) for f in wv.fields])
+                if 'None' in [str(f.ft.dflt) for f in wv.fields] and False:
+                    wrong = expected
                 if wrong != expected:
                     fns.append('impl T { pub fn default() -> T { %s } }' % wrong)
         if own_new:
